@@ -58,7 +58,7 @@ Mk(ws, real, r0) ==
    memw |-> [a \in { 12288 + k - 1 : k \in 1..Len(ws) } |-> W(ws[a - 12288 + 1], 65535)]
             @@ [a \in { DATA + k - 1 : k \in 1..Len(DataWords) } |-> W(DataWords[a - DATA + 1], 65535)],
    dirty |-> <<>>, mcr |-> TRUE, prefetch |-> FALSE, fno |-> 0, dbgf |-> FALSE, frames |-> <<>>,
-   icount |-> 0, obs |-> <<>>, kbd |-> <<66, 10>>, disp |-> <<>>,
+   icount |-> 0, obs |-> <<>>, kbd |-> <<66, 10, 67, 68>>, disp |-> <<>>,
    devs |-> <<Dev("null"), Dev("kbd"), Dev("disp")>>, ports |-> (65024 :> 1) @@ (65026 :> 1) @@ (65028 :> 2) @@ (65030 :> 2),
    ireg |-> (65532 :> "PSR") @@ (65534 :> "MCR"),
    flags |-> [strict |-> FALSE, real |-> real, dbg |-> FALSE, ignp |-> FALSE], alloca |-> <<>>,
@@ -92,7 +92,8 @@ TrapModeOK ==
     LET ws == Words(prog, ending)
         a  == RunCall(Mk(ws, FALSE, r0), "run", 0, Envs)
         b  == RunCall(Mk(ws, TRUE, r0), "run", 0, Envs)
-    IN /\ a.n < Budget                           \* the family is bounded: every program ends
+    IN /\ a.n < Budget                           \* the family is bounded: every program ends (the keyboard queue
+                                                 \* holds more bytes than a program of MaxFrag <= 4 fragments reads)
        /\ ~Privileged(a.st.psr)                  \* and ends in user mode under virtual traps
        /\ IF a.out = "ok"
           THEN /\ a.st.pause = "Halt"
@@ -107,7 +108,7 @@ TrapModeOK ==
 \* R0 followed by the words loaded at x3000
 \* (the constants of the start state are shared with the harness through the OPS file and must agree)
 Ops == ndJsonDeserialize(IOEnv.OPS)[1]
-OpsAgree == Ops.data = DataWords /\ Ops.dataaddr = DATA /\ Ops.kbd = <<66, 10>> /\ Ops.r6 = 64768 /\ Ops.psr = 32770
+OpsAgree == Ops.data = DataWords /\ Ops.dataaddr = DATA /\ Ops.kbd = <<66, 10, 67, 68>> /\ Ops.r6 = 64768 /\ Ops.psr = 32770
 Emit == phase = "chk" => (OpsAgree /\ PrintT(<<"HIST", <<r0>> \o Words(prog, ending)>>))
 \* which ending leads where (non-vacuity of the two branches)
 EndingsAsMeant ==
